@@ -139,7 +139,7 @@ pub fn check_reuse_after_abort<T: PartialEq>(script: &[DiffOp], old: &[T], new: 
                     Call::Fin => {}
                 }
             }
-            let what = || format!("Replace<sink> that went through script #{} aborted by its sink at call {} before (sink reset afterwards)", pi, j);
+            let what = || format!("Replace<sink> that went through script #{} before, its sink failing at call {} (script aborted there, or completed and finished when it makes fewer calls; sink reset afterwards)", pi, j);
             let st = validate_ops(&ops, old, 0..old.len(), new, 0..new.len(), true)
                 .map_err(|e| format!("{}: output is not a valid script: {} [output: {:?}]", what(), e, ops))?;
             if st.deleted != del || st.inserted != ins {
